@@ -899,6 +899,63 @@ theorem kinv_init (b : Bool) : KInv (init b) := by
 
 end Compio.SharedFd
 
+namespace Compio.SharedFd
+
+/-! ## a sole owner that is parked stays parked -/
+
+theorem refs_two (l : List Role) (i j : Nat) (a b : Role) (hij : i ≠ j) (hi : l[i]? = some a)
+    (hj : l[j]? = some b) (ha : a.holds = true) (hb : b.holds = true) : 2 ≤ refs l := by
+  induction l generalizing i j with
+  | nil => simp at hi
+  | cons x l ih =>
+    cases i with
+    | zero =>
+      cases j with
+      | zero => exact absurd rfl hij
+      | succ j =>
+        simp at hi hj
+        subst hi
+        have := refs_pos l j b hj hb
+        simp [refs, b2n, ha]; omega
+    | succ i =>
+      cases j with
+      | zero =>
+        simp at hi hj
+        subst hj
+        have := refs_pos l i a hi ha
+        simp [refs, b2n, hb]; omega
+      | succ j =>
+        simp at hi hj
+        have := ih i j (by omega) hi hj
+        simp [refs]; omega
+
+/-- every event needs its target to own a reference -/
+theorem step_target_holds {s s' : St} {e : Ev} (h : step s e = some s') :
+    ∃ r, s.actors[e.target]? = some r ∧ r.holds = true := by
+  cases e <;>
+    simp only [step, stepClone, stepOpStart, stepDrop, stepDropCheck, stepDropDec, stepTryUnwrap, stepTake,
+      stepClose, stepPoll, stepPSwap, stepMicro, stepDropFut] at h <;>
+    (repeat' split at h) <;>
+    (first
+      | exact ⟨_, by assumption, rfl⟩
+      | (subst_vars; exact ⟨_, by assumption, rfl⟩)
+      | (cases h; done))
+
+
+/-- A closer that is parked as the sole owner and has no pending wake-up stays so for ever: no other
+actor can take a step (nobody else owns a reference), so nothing will wake it. Only a poll of the
+closer itself (which nothing will trigger) or dropping its future changes the state. -/
+theorem stuck_forever {s s' : St} {e : Ev} {c : Nat} (hi : Inv s) (hc : s.parked c) (h1 : s.count = 1)
+    (h : step s e = some s') : e.target = c := by
+  obtain ⟨r, hr, hh⟩ := step_target_holds h
+  by_cases hne : e.target = c
+  · exact hne
+  · have := refs_two s.actors e.target c r _ hne hr hc hh rfl
+    have := hi.cnt
+    omega
+
+end Compio.SharedFd
+
 /-! ## descriptors produced by operations -/
 
 namespace Compio.Produced
